@@ -49,8 +49,8 @@ type Job struct {
 	Args    []string // extra arguments
 	Env     []string // extra environment
 	Timeout time.Duration
-	Procs   int // GOMAXPROCS, 0 = default
-	Only    int // >=0: run just this case
+	Procs   int  // GOMAXPROCS, 0 = default
+	Only    int  // >=0: run just this case
 	NoInl   bool // run the build made with -gcflags=all=-l
 	// results
 	base     string
@@ -132,6 +132,15 @@ type Finding struct {
 	Witness   json.RawMessage `json:"witness,omitempty"`
 }
 
+// freeBytes reports the free space of the file system that holds dir.
+func freeBytes(dir string) (uint64, bool) {
+	var st syscall.Statfs_t
+	if err := syscall.Statfs(dir, &st); err != nil {
+		return 0, false
+	}
+	return st.Bavail * uint64(st.Bsize), true
+}
+
 func die(code int, f string, a ...any) {
 	fmt.Fprintf(os.Stderr, "vcheck: "+f+"\n", a...)
 	os.Exit(code)
@@ -168,6 +177,10 @@ func main() {
 	buildDir = filepath.Join(verifDir, ".build", prop)
 	runDir = filepath.Join(buildDir, "run")
 	os.RemoveAll(runDir)
+	if free, ok := freeBytes(verifDir); ok && free < 3<<30 {
+		fmt.Printf("INCONCLUSIVE property=%s reason=\"less than 3 GiB of free disk space (%d MiB): the children's journals and the build cache need room\"\n", prop, free>>20)
+		os.Exit(2)
+	}
 	if err := os.MkdirAll(runDir, 0o755); err != nil {
 		die(2, "%v", err)
 	}
@@ -226,6 +239,11 @@ func main() {
 
 	findings := loadFindings()
 	code := report(plan, agg, findings, wall, replay)
+	if os.Getenv("VERIF_KEEP") == "" {
+		// journals, reports and scratch files of the children (gigabytes at the thorough tier): replays and evidence
+		// have been written elsewhere; VERIF_KEEP=1 keeps them for a post-mortem
+		os.RemoveAll(runDir)
+	}
 	os.Exit(code)
 }
 
@@ -568,6 +586,12 @@ func collect(agg *Agg, j *Job) {
 		hd := head(j.base+".stderr", 1500)
 		if idx < 0 && (strings.Contains(hd, "flag provided but not defined") || strings.Contains(hd, "harness usage error")) {
 			agg.Inconcl = append(agg.Inconcl, "child usage error: "+hd)
+			return
+		}
+		if low := strings.ToLower(hd + st); strings.Contains(low, "no space left on device") || strings.Contains(low, "disk quota exceeded") {
+			// the machine ran out of disk under the child (its journal, report or scratch files could not be written):
+			// nothing can be said about the library from such a run
+			agg.Inconcl = append(agg.Inconcl, fmt.Sprintf("child %s/%s died because the disk is full: %s", j.Sub, j.Mode, tail(j.base+".stderr", 300)))
 			return
 		}
 		sig := prop + "/crash/" + j.Sub
